@@ -164,7 +164,21 @@ class Ctx:
         lock = ROOT / "build" / ".coq.lock"
         lock.parent.mkdir(exist_ok=True)
         with open(lock, "w") as lf:
-            fcntl.flock(lf, fcntl.LOCK_EX)
+            # another check (or a developer) may be rebuilding the static tree: wait for it, but not for
+            # ever -- after 4 minutes go on with the .vo files that exist (a check whose own
+            # dependencies are stale then fails its obligations, it does not hang)
+            waited, got = 0, False
+            while waited < 240:
+                try:
+                    fcntl.flock(lf, fcntl.LOCK_EX | fcntl.LOCK_NB)
+                    got = True
+                    break
+                except OSError:
+                    time.sleep(2)
+                    waited += 2
+            if not got:
+                self.notes.append("static build lock busy for 240 s: continuing with the existing .vo files")
+                return
             rc, out = sh("./setup.sh quiet", cwd=ROOT, timeout=3000)
             fcntl.flock(lf, fcntl.LOCK_UN)
         if rc != 0:
